@@ -45,6 +45,9 @@ def main() -> int:
         return common.finish(prop, args.tier, mod.LEVEL, col, t0, mod.RULE,
                              write_evidence=False)
 
+    import glob
+    for old in glob.glob(os.path.join(common.ROOT, "evidence", "replay", f"{prop}-*.json")):
+        os.unlink(old)  # witnesses of earlier runs of this property
     try:
         mod.run(args.tier, col)
     except Exception:
